@@ -232,6 +232,34 @@ edit('frontend/cs/scs/builder.go',[('''		missing := make([]int, 0, len(lookup))
 save('benign-det-sort','C11','frontend/cs/scs/builder.go','sorted-keys idiom rewritten with sort.Slice')
 edit('backend/groth16/bn254/prove.go',[('	var _r, _s, _kr fr.Element','	var _s, _r, _kr fr.Element')])
 save('benign-rand-decl','C20','backend/groth16/bn254/prove.go','declaration order of the random scalars swapped')
+# ---- round-2 inspired: header bounds, grown witness slice
+m('hdrbound-witness-slice','C08',['V-HDR-BOUND'],'backend/witness/vector.go','''	case fr_bn254.Vector:
+		a := make(fr_bn254.Vector, n)
+		copy(a, wt)
+		return a, nil
+''','''	case fr_bn254.Vector:
+		a := make(fr_bn254.Vector, n)
+		copy(a, wt[:n])
+		return a, nil
+''',note='header count nbPublic slices the decoded vector without comparing with its length')
+m('vguardidx-g16-witness-late','C08',['V-GUARD-IDX','V-GUARD-LEN'],'backend/groth16/bls12-377/verify.go','''	if len(publicWitness) != nbPublicVars-1 {
+		return fmt.Errorf("invalid witness size, got %d, expected %d (public - ONE_WIRE)", len(publicWitness), len(vk.G1.K)-1)
+	}
+''','''	_ = nbPublicVars
+''',note='public witness length check removed: the commitment loop indexes publicWitness unguarded')
+edit('backend/witness/vector.go',[('''	case fr_bn254.Vector:
+		a := make(fr_bn254.Vector, n)
+		copy(a, wt)
+		return a, nil
+''','''	case fr_bn254.Vector:
+		if n > len(wt) {
+			return nil, errors.New("header does not match payload")
+		}
+		a := make(fr_bn254.Vector, n)
+		copy(a, wt[:n])
+		return a, nil
+''')])
+save('benign-hdrbound-guarded','C08','backend/witness/vector.go','header count compared with len() before slicing')
 json.dump({'comment':'selftest mutants: each patch breaks one rule instance and must be detected by the listed rule(s) of its property; produced by tools/make_selftest.py','mutants':M}, open(os.path.join(root,'selftest','mutants.json'),'w'), indent=1)
 subprocess.run(['git','-C','/repo','worktree','remove','--force',WT],capture_output=True)
 print(len(M),'mutants')
